@@ -237,11 +237,15 @@ def run_check(prop, tier, repo, seed, jobs, t0):
     keys = [k for k, c in V.reg.contracts.items() if prop in c.props]
     lemma_keys = [('lemma', n) for n in sorted(V.reg.lemmas)]
     jobs_list = [(repo, k, timeout_ms, prop in propcfg.TERMINATION_PROPS, seed) for k in keys + lemma_keys]
-    if not keys:
+    if not keys and cfg.get('needs_contracts', True):
         print('no contracts carry property %s' % prop)
         return 3
-    with mp.Pool(jobs) as pool:
-        results = pool.map(verify_one, jobs_list, chunksize=1)
+    if not keys:
+        jobs_list = []
+    results = []
+    if jobs_list:
+        with mp.Pool(min(jobs, len(jobs_list))) as pool:
+            results = pool.map(verify_one, jobs_list, chunksize=1)
     # ---- extra analyses registered for this property (frame checker, data-flow, ...)
     extra = []
     for name, fn in cfg.get('extra', []):
